@@ -217,6 +217,7 @@ class Effect:
     lineno: int
     col: int = 0
     aug: Optional[str] = None
+    path: Optional[T] = None     # syntactic access path of the target base (no heap resolution)
 
 
 @dataclass
@@ -231,6 +232,7 @@ class POp:
     func: str
     lineno: int
     col: int
+    path: Optional[T] = None
 
 
 @dataclass
@@ -574,7 +576,7 @@ class _Frame:
             if isinstance(tgt, ast.Subscript):
                 base = self.eval(tgt.value, st)
                 key = self.eval_index(tgt.slice, st)
-                self.effect("del-sub", base, key, None, (), st, tgt)
+                self.effect("del-sub", base, key, None, (), st, tgt, path=self.path_of(tgt.value, st))
             elif isinstance(tgt, ast.Attribute):
                 base = self.eval(tgt.value, st)
                 self.effect("del-attr", base, tgt.attr, None, (), st, tgt)
@@ -771,7 +773,8 @@ class _Frame:
         elif isinstance(tgt, ast.Attribute):
             base = self.eval(tgt.value, st)
             if record:
-                self.effect("attr-store", base, tgt.attr, v, (), st, tgt, aug=aug, aug_val=aug_val)
+                self.effect("attr-store", base, tgt.attr, v, (), st, tgt, aug=aug, aug_val=aug_val,
+                            path=self.path_of(tgt.value, st))
             if isinstance(tgt.value, ast.Name) and base.op == "new" and tgt.value.id in st.env:
                 st.env[tgt.value.id] = new_with(base, tgt.attr, v)
             else:
@@ -780,13 +783,16 @@ class _Frame:
             base = self.eval(tgt.value, st)
             key = self.eval_index(tgt.slice, st)
             if record:
-                self.effect("sub-store", base, key, v, (), st, tgt, aug=aug, aug_val=aug_val)
-            if isinstance(tgt.value, ast.Name) and tgt.value.id in st.env and base.op in ("dict",):
+                self.effect("sub-store", base, key, v, (), st, tgt, aug=aug, aug_val=aug_val,
+                            path=self.path_of(tgt.value, st))
+            local = isinstance(tgt.value, ast.Name) and tgt.value.id in st.env \
+                and base.op not in ("param", "attr", "sub", "elem", "widen")
+            if local and base.op == "dict":
                 st.env[tgt.value.id] = T("dict", (base.a[0] + ((key, v),),))
-            elif isinstance(tgt.value, ast.Name) and tgt.value.id in st.env:
+            elif local:
                 st.env[tgt.value.id] = T("mut", (base, "__setitem__", (key, v)))
             else:
-                st.heap[T("sub", (base, key))] = v
+                st.heap[T("sub", (self.path_of(tgt.value, st), key))] = v
         elif isinstance(tgt, ast.Starred):
             self.bind(tgt.value, v, st, stmt, record)
 
@@ -799,10 +805,29 @@ class _Frame:
             return T("ite", (v.a[0], self.index_term(v.a[1], idx, n_targets), self.index_term(v.a[2], idx, n_targets)))
         return T("sub", (v, idx))
 
-    def effect(self, kind, base, key, value, args, st, node, aug=None, aug_val=None):
+    def effect(self, kind, base, key, value, args, st, node, aug=None, aug_val=None, path=None):
         self.rec.effects.append(Effect(kind, base, key, value if aug_val is None else aug_val, args, st.pc, self.loops,
                                        self.trys, self.seq(), self.qualname, getattr(node, "lineno", 0),
-                                       getattr(node, "col_offset", 0), aug))
+                                       getattr(node, "col_offset", 0), aug, path))
+
+    def path_of(self, node, st: State) -> T:
+        """Syntactic access path of an expression: names resolved through the environment, attribute and
+        subscript chains kept as written (no heap lookup, nothing recorded)."""
+        if isinstance(node, ast.Attribute):
+            return T("attr", (self.path_of(node.value, st), node.attr))
+        if isinstance(node, ast.Subscript) and not isinstance(node.slice, ast.Slice):
+            saved = (len(self.rec.pops), len(self.rec.calls))
+            idx = self.eval(node.slice, st)
+            del self.rec.pops[saved[0]:]
+            del self.rec.calls[saved[1]:]
+            return T("sub", (self.path_of(node.value, st), idx))
+        saved = (len(self.rec.pops), len(self.rec.calls), len(self.rec.effects), len(self.rec.returns))
+        v = self.eval(node, st)
+        del self.rec.pops[saved[0]:]
+        del self.rec.calls[saved[1]:]
+        del self.rec.effects[saved[2]:]
+        del self.rec.returns[saved[3]:]
+        return v
 
     # -------------------------------------------------------------- expressions
     def eval(self, node, st: State) -> T:
@@ -915,6 +940,11 @@ class _Frame:
         key = T("sub", (base, idx))
         if key in st.heap:
             return st.heap[key]
+        pth = None
+        if st.heap:
+            pth = T("sub", (self.path_of(n.value, st), idx))
+            if pth in st.heap:
+                return st.heap[pth]
         if base.op in ("tuple", "list") and idx.op == "const" and isinstance(idx.a[0], int):
             items = base.a[0]
             if -len(items) <= idx.a[0] < len(items) and not any(i.op == "star" for i in items):
@@ -931,7 +961,7 @@ class _Frame:
             except Exception:
                 pass
         self.rec.pops.append(POp("sub", base, idx, st.pc, self.loops, self.trys, self.seq(), self.qualname, n.lineno,
-                                 n.col_offset))
+                                 n.col_offset, self.path_of(n.value, st)))
         return key
 
     def e_Tuple(self, n, st):
@@ -1228,7 +1258,8 @@ class _Frame:
                     if r is not None:
                         return r
             if name in MUTATORS:
-                self.effect("mut-call", recv, name, args[-1] if args else None, args, st, node)
+                pth = self.path_of(node.func.value, st) if isinstance(node, ast.Call) and isinstance(node.func, ast.Attribute) else None
+                self.effect("mut-call", recv, name, args[-1] if args else None, args, st, node, path=pth)
                 root = node.func.value if isinstance(node, ast.Call) and isinstance(node.func, ast.Attribute) else None
                 if isinstance(root, ast.Name) and root.id in st.env and recv.op not in ("param",):
                     st.env[root.id] = T("mut", (recv, name, args))
